@@ -40,6 +40,9 @@ type c14Case struct {
 	// its parent directory exists and the path is still free (done from the Chown callback, the one place where
 	// a caller's code runs between two steps of a copy)
 	Plant string `json:"plant,omitempty"`
+	// PlantDir: the link that appears points to the outside directory (planted at a directory path the copy is about
+	// to create) instead of the outside file
+	PlantDir bool `json:"plantdir,omitempty"`
 	// Disk: the sandbox lies on a disk file system (inode numbers are handed out again at once)
 	Disk bool `json:"disk,omitempty"`
 }
@@ -51,7 +54,7 @@ func (c c14Case) String() string {
 		s += " chown+utime"
 	}
 	if c.Plant != "" {
-		s += fmt.Sprintf(" link-to-outside-appears-at=%q", c.Plant)
+		s += fmt.Sprintf(" link-to-outside-appears-at=%q(to-directory=%v)", c.Plant, c.PlantDir)
 	}
 	if c.Disk {
 		s += " sandbox-on-disk-filesystem"
@@ -169,7 +172,11 @@ func judgeC14(root string, c c14Case) (string, string) {
 		ci.Chown = func(u *fscopy.User) (*fscopy.User, error) {
 			if _, err := os.Lstat(filepath.Dir(target)); err == nil {
 				if _, err := os.Lstat(target); os.IsNotExist(err) {
-					os.Symlink("/outside/f", target)
+					if c.PlantDir {
+						os.Symlink("/outside/d", target)
+					} else {
+						os.Symlink("/outside/f", target)
+					}
 				}
 			}
 			if inner != nil {
@@ -325,6 +332,22 @@ func c14Cases(tier string) []c14Case {
 			}
 		}
 	}
+	// ... and at a directory path the copy is about to create: a level of the destination argument, a copied directory
+	for _, inc := range [][]string{nil, {"a/f"}, {"c/g"}} {
+		for _, da := range []string{"new/sub", "new/sub/deeper", "x/new/sub", "new"} {
+			for _, pl := range []string{"new/sub", "new/sub/deeper", "x/new", "x/new/sub", filepath.Join(da, "a"), filepath.Join(da, "c")} {
+				for o := 0; o < 4; o++ {
+					out = append(out, c14Case{Src: srcBase, Dst: dstBase, SrcArg: "/", DstArg: da, DirC: true, Include: inc, Repl: o&1 != 0, Stamp: o&2 != 0, Plant: pl, PlantDir: true})
+					if inc == nil {
+						// a single file or directory copied to a name several missing levels down
+						for _, sa := range []string{"b", "a/f", "a"} {
+							out = append(out, c14Case{Src: srcBase, Dst: dstBase, SrcArg: sa, DstArg: da + "/t", Repl: o&1 != 0, Stamp: o&2 != 0, Plant: pl, PlantDir: true})
+						}
+					}
+				}
+			}
+		}
+	}
 	return out
 }
 
@@ -397,6 +420,44 @@ func runC14(r *evid.Run) {
 	self, _ := os.Executable()
 	errs := make([]string, n)
 	aggs := make([]*c14Out, n)
+	// one more worker whose sandbox lies on a disk file system (runs alongside the others)
+	var diskAgg *c14Out
+	var diskErr string
+	diskCases := int64(0)
+	diskDone := make(chan struct{})
+	go func() {
+		defer close(diskDone)
+		droot := scratch.DiskDir("sb14d")
+		if droot == "" {
+			return
+		}
+		cmd := exec.Command(self, "child", "c14", "disk", "1", r.Tier, droot)
+		var stderr strings.Builder
+		cmd.Stderr = &stderr
+		b, err := cmd.Output()
+		scratch.Remove(droot)
+		agg := &c14Out{Count: map[string]int{}}
+		dec := json.NewDecoder(strings.NewReader(string(b)))
+		for {
+			var o c14Out
+			if dec.Decode(&o) != nil {
+				break
+			}
+			agg.Evals += o.Evals
+			for _, v := range o.Viol {
+				agg.Count[v.Key]++
+				v.Msg = "(sandbox on a disk file system) " + v.Msg
+				agg.Viol = append(agg.Viol, v)
+			}
+			for k, c := range o.Count {
+				agg.Count[k] += c
+			}
+		}
+		diskAgg, diskCases = agg, agg.Evals
+		if err != nil {
+			diskErr = fmt.Sprintf("disk child: %v: %s", err, firstLine(stderr.String()))
+		}
+	}()
 	par.Do(n, n, func(i int) {
 		root := scratch.Dir("sb14")
 		defer scratch.Remove(root)
@@ -425,40 +486,12 @@ func runC14(r *evid.Run) {
 			errs[i] = fmt.Sprintf("child %d: %v: %s", i, err, firstLine(stderr.String()))
 		}
 	})
-	// one more worker whose sandbox lies on a disk file system
-	if droot := scratch.DiskDir("sb14d"); droot != "" {
-		cmd := exec.Command(self, "child", "c14", "disk", "1", r.Tier, droot)
-		var stderr strings.Builder
-		cmd.Stderr = &stderr
-		b, err := cmd.Output()
-		scratch.Remove(droot)
-		agg := &c14Out{Count: map[string]int{}}
-		dec := json.NewDecoder(strings.NewReader(string(b)))
-		for {
-			var o c14Out
-			if dec.Decode(&o) != nil {
-				break
-			}
-			agg.Evals += o.Evals
-			for _, v := range o.Viol {
-				agg.Count[v.Key]++
-				v.Msg = "(sandbox on a disk file system) " + v.Msg
-				agg.Viol = append(agg.Viol, v)
-			}
-			for k, c := range o.Count {
-				agg.Count[k] += c
-			}
-		}
-		aggs = append(aggs, agg)
-		if err != nil {
-			errs = append(errs, fmt.Sprintf("disk child: %v: %s", err, firstLine(stderr.String())))
-		} else {
-			errs = append(errs, "")
-		}
-		r.Set("cases_on_disk_filesystem", agg.Evals)
-	} else {
-		r.Set("cases_on_disk_filesystem", 0)
+	<-diskDone
+	if diskAgg != nil {
+		aggs = append(aggs, diskAgg)
+		errs = append(errs, diskErr)
 	}
+	r.Set("cases_on_disk_filesystem", diskCases)
 	total := int64(0)
 	for i, a := range aggs {
 		if errs[i] != "" {
